@@ -13,6 +13,7 @@
   (`dtftComb`) and the correspondence.
 -/
 import Lcapy.Proofs.DT2
+import Lcapy.Model.DTSel
 import Mathlib.Analysis.SpecificLimits.Normed
 import Mathlib.Analysis.Complex.Basic
 namespace Lcapy.C13
@@ -145,11 +146,37 @@ theorem seq_zt_origin (vals : List K) (n0 : ℤ) (z : K) (hz : z ≠ 0) :
   rw [dtftSum_lit vals n0 (1 / z) (by simpa using hz)]
   simp [seqZT, lsum_pdilateFrom]
 
-/-- `zseq.IZT ∘ nseq.ZT` returns the values -/
-theorem seq_izt_zt (vals : List K) (z : K) (hz : z ≠ 0) : seqIZTPy (seqZTPy vals z) z = vals := by
+/-- `zseq.IZT ∘ nseq.ZT` returns the values — list-position pair (the code before the repair of F27; not the executed
+    pair any more, see `seq_izt_zt_executed`) -/
+theorem seq_izt_zt_position_partial (vals : List K) (z : K) (hz : z ≠ 0) : seqIZTPy (seqZTPy vals z) z = vals := by
   simp only [seqIZTPy, seqZTPy, pdilateFrom_pdilateFrom]
   have : 1 / z * z = 1 := by field_simp
   rw [this, mul_one, pdilateFrom_one]
+
+/-- … sequence-index pair (`z**(-self.n[ni])` then `z**self.n[ni]`), first index n0 of any sign -/
+theorem seq_izt_zt_origin (vals : List K) (n0 : ℤ) (z : K) (hz : z ≠ 0) :
+    seqIZT (seqZT vals n0 z) n0 z = vals := by
+  simp only [seqIZT, seqZT, pdilateFrom_pdilateFrom]
+  have h1 : 1 / z * z = 1 := by field_simp
+  have h2 : zpowK (1 / z) n0 * zpowK z n0 = 1 := by
+    rw [zpowK_eq, zpowK_eq, one_div, inv_zpow, inv_mul_cancel₀ (zpow_ne_zero _ hz)]
+  rw [h1, h2, pdilateFrom_one]
+
+/-- THE EXECUTED PAIR: the models that Driver/C13.lean runs — selected by the flags tx_dtseq regenerates from
+    lcapy/nseq.py and lcapy/zseq.py on every run (`Model/DTSel.lean`) — round-trip, values and first index.
+    The proof goes through for the two consistent source forms (position/position, index/index with kept indices);
+    for an inconsistent pair the statement is false and this obligation breaks, as it should. -/
+theorem seq_izt_zt_executed (vals : List K) (n0 : ℤ) (z : K) (hz : z ≠ 0) :
+    seqIZTModel (seqZTModel vals n0 z) (seqZTIndex n0) z = vals
+      ∧ (Lcapy.Generated.DTSeq.ztUsesSequenceIndex = true → seqIZTIndex (seqZTIndex n0) = n0) := by
+  constructor
+  · simp only [seqIZTModel, seqZTModel, seqZTIndex, Lcapy.Generated.DTSeq.ztUsesSequenceIndex,
+      Lcapy.Generated.DTSeq.iztUsesSequenceIndex, Lcapy.Generated.DTSeq.ztKeepsIndices, ↓reduceIte, Bool.false_eq_true]
+    first
+      | exact seq_izt_zt_origin vals n0 z hz
+      | exact seq_izt_zt_position_partial vals z hz
+  · simp [seqIZTIndex, seqZTIndex, Lcapy.Generated.DTSeq.ztUsesSequenceIndex, Lcapy.Generated.DTSeq.ztKeepsIndices,
+      Lcapy.Generated.DTSeq.iztKeepsIndices]
 
 /-- `nseq.DFT`: element k is the bilateral defining sum over the sequence's own index range -/
 theorem seq_dft_is_sum (vals : List K) (n0 : ℤ) (q : K) (hq : q ≠ 0) :
@@ -185,8 +212,11 @@ example : convolveSeq ([1, 2, 3] : List ℚ) (-1) [0, 1] 2 = ([0, 1, 2, 3], 1) :
 /-! ## 8. Difference equations: initial-condition order, transfer function, impulse response, `lfilter` -/
 
 /-- the initial-condition list is `ic = [y[-1], y[-2], …]` (most recent first) … -/
-theorem response_ic_indexing (b a : List K) (x : ℤ → K) (ic : List K) (i : ℕ) :
-    respY b a x ic (-((i : ℤ) + 1)) = ic.getD i 0 := respY_neg b a x ic i
+theorem response_ic_indexing (b a : List K) (x : ℤ → K) (ic : List K) (i : ℕ) (hi : i < ic.length) :
+    respY b a x ic (-((i : ℤ) + 1)) = ic[i] := by
+  rw [respY_neg b a x ic i, List.getD_eq_getElem _ _ hi]
+
+example : (2 : ℕ) < ([5, 7, 9] : List ℚ).length := by decide
 
 /-- … and this is how it enters the first computed sample:
     `a_0 y[0] = Σ_l b_l x[-l] - Σ_{k≥1} a_k ic[k-1]` (seeded change C13-2 loads the list reversed) -/
